@@ -143,6 +143,11 @@ impl<'c, W: WorldDriver> Session<'c, W> {
                     return Err(self.fail(&["C12"], "capacity-below-len", format!("{}.capacity() {} < len() {}", name, cap, len)));
                 }
                 let last = self.sims[si].archs[a].last_cap;
+                if self.cfg.lenient_capacity && cap >= len && (cap < last || (cap != last && !self.growth_ok.contains(&(si, a)))) {
+                    self.count("collateral_capacity_law", 1);
+                    self.sims[si].archs[a].last_cap = cap;
+                    continue;
+                }
                 if cap < last {
                     return Err(self.fail(&["C12"], "capacity-decreased", format!("{}.capacity() decreased from {} to {}", name, last, cap)));
                 }
